@@ -163,6 +163,7 @@ InvFault == ForRuns(LAMBDA e, r :
 InvFaultRest == ForRuns(LAMBDA e, r :
              ~Faulted(e) => /\ NoPanic(r)
                             /\ OutcomeOk(e, r, pcat, pfiles)
+                            /\ OkRun(e, r) => ValOk(e, r, pcat)      \* the handle's own view is the stored one
                             /\ HasField(r, "audit") => AuditOk(r.audit, cat))
 
 (* C05: every public write is exactly one store transaction, committed once *)
